@@ -35,6 +35,7 @@ type ev struct {
 	Ec    int     `json:"ec"` // QR level 1=L 2=M 3=Q 4=H
 	Rd    string  `json:"rd"` // own | multi
 	Th    int     `json:"th"` // TRY_HARDER
+	Al    int     `json:"al"` // ITF: pass ALLOWED_LENGTHS = [length of the content] (a hint the row decoder itself consumes)
 	H     int     `json:"h"`  // requested height of a 1-D rendering
 	Mg    int     `json:"mg"` // QR: MARGIN hint (quiet zone in modules), -1 = the writer's default
 	Pad   int     `json:"pad"`
@@ -244,10 +245,17 @@ func reader(e *ev) gozxing.Reader {
 }
 
 func hints(e *ev) map[gozxing.DecodeHintType]interface{} {
+	var h map[gozxing.DecodeHintType]interface{}
 	if e.Th == 1 {
-		return map[gozxing.DecodeHintType]interface{}{gozxing.DecodeHintType_TRY_HARDER: true}
+		h = map[gozxing.DecodeHintType]interface{}{gozxing.DecodeHintType_TRY_HARDER: true}
 	}
-	return nil
+	if e.Al == 1 && e.Sym == "ITF" {
+		if h == nil {
+			h = map[gozxing.DecodeHintType]interface{}{}
+		}
+		h[gozxing.DecodeHintType_ALLOWED_LENGTHS] = []int{len(e.C)}
+	}
+	return h
 }
 
 func mirrored(res interface{ GetOther() interface{} }) int {
